@@ -364,7 +364,8 @@ ocp.set_der(v, a)
                 assert refine==1
                 e, offset = stage._offsets[s]
 
-                J = ca.jacobian(expr,v)
+                # Dependencies of the shifted operand itself (expr only sees the opaque offset symbol)
+                J = ca.jacobian(e,v)
                 deps = ca.sum1(J.sparsity()).T.row()
 
                 [v_symbols_local,v_expressions] = self.xu_symbols(stage, deps, self.XU_sampled[refine])
@@ -575,6 +576,17 @@ ocp.set_der(v, a)
             Jmul = Asignal[:,deps]
             s = self.signals[vars]
             opti.subject_to(self.eval(stage,lb - b <= (Jmul @ s.coeff <= ub-b)))
+
+    def fill_placeholders_integral_control(self, phase, stage, expr, refine=1):
+        if phase==1: return
+        # Left sum over the control intervals. With next/prev/offset in expr, the sampler only returns the
+        # nodes at which every shifted operand exists: weigh each of those with the length of its own interval
+        offsets = [stage._offsets[s][1] for s in ca.symvar(expr) if s in stage._offsets]
+        first = -min(offsets+[0])
+        [_,exprs] = stage._sample(expr,grid='control',refine=refine)
+        tg = ca.vec(self.time[refine])
+        n = min(exprs.shape[1], self.N*refine-first) # the final node is not part of a left sum
+        return ca.sum2(ca.diff(tg)[first:first+n].T*exprs[:,:n])
 
     def fill_placeholders_integral(self, phase, stage, expr, *args):
         if phase==1: return
